@@ -262,6 +262,11 @@ func e2eExec(w *world, f []string) (res string) {
 		cfg.HostDialer = e.cl
 		cfg.NumConns = 1
 		cfg.Timeout = 3 * time.Second
+		if strings.Contains(f[3], "H") {
+			// scenarios in which the control node holds an answer back (e2ehold): the hold lasts as long as the driver's
+			// two debounce windows take, it must not run into the query timeout
+			cfg.Timeout = 90 * time.Second
+		}
 		cfg.ConnectTimeout = 3 * time.Second
 		cfg.ReconnectInterval = 0
 		cfg.WriteCoalesceWaitTime = 0
@@ -330,6 +335,67 @@ func e2eExec(w *world, f []string) (res string) {
 			r = "1"
 		}
 		return "refreshed=" + r + " " + e2eSnapString(sn)
+	case "e2ehold":
+		// requests arriving DURING a refresh: burst A makes the driver refresh; the control node holds its answer to
+		// system.peers (the table as it was when the query arrived: rowsA); the cluster changes to rowsB and says so
+		// (burst B: topology events / UP of an address the driver does not know), which the driver turns into a refresh
+		// request WHILE the first refresh is still waiting; then the answer is released. After quiescence the view must
+		// follow rowsB, the LATEST report.
+		if len(f) != 5 {
+			return "bad-op"
+		}
+		bA, rowsA, bB, rowsB := parseEvBatch(f[1]), parseEvRows(f[2]), parseEvBatch(f[3]), parseEvRows(f[4])
+		if len(rowsA) == 0 || len(rowsB) == 0 {
+			return "bad-op"
+		}
+		e.setRows(rowsA)
+		sn0 := e.snap()
+		e.trackBatch(sn0, bA, e.statusOff)
+		if !e.expectBatch(bA, sn0) {
+			return "err:no-refresh"
+		}
+		_, p0 := e.cp.Counts()
+		e.peers0 = p0
+		e.cp.HoldNextPeers(1)
+		defer e.cp.ReleasePeers()
+		if !e.pushBatch(bA) {
+			return "err:no-control-connection"
+		}
+		for t0 := time.Now(); e.cp.HeldPeers() == 0; time.Sleep(5 * time.Millisecond) {
+			if time.Since(t0) > e2eWatchdog {
+				return "err:refresh-not-started"
+			}
+		}
+		e.expectRefresh(rowsA, sn0)
+		expA := e.exp
+		// the first refresh is waiting for its answer; the cluster changes and tells
+		e.setRows(rowsB)
+		sn1 := e.snap()
+		e.trackBatch(sn1, bB, e.statusOff)
+		e.expectBatch(bB, sn1)
+		if !e.pushBatch(bB) {
+			return "err:no-control-connection"
+		}
+		// … until the driver has turned burst B into a refresh request (the refresh timer runs / has expired) — while the
+		// first refresh is still in progress. (If that is never seen the answer is released all the same: the verdict is
+		// the comparison of the quiesced view with the model, this wait only decides WHEN the node answers.)
+		for t0 := time.Now(); !gocql.VerifRingRefreshPending(e.sess.S) && time.Since(t0) < e2eWatchdog; {
+			time.Sleep(5 * time.Millisecond)
+		}
+		e.cp.ReleasePeers()
+		// the ring the second refresh starts from (for the oracles' "new in the ring") is the ring after the first one
+		for t0 := time.Now(); time.Since(t0) < e2eWatchdog; time.Sleep(2 * time.Millisecond) {
+			if _, p := e.cp.Counts(); p > p0+1 || e2eMatches(e.snap(), expA) {
+				break
+			}
+		}
+		snA := e.snap()
+		e.holdPrior = snA
+		e.noteRefresh(rowsB)
+		e.expectRefresh(rowsB, snA)
+		sn := e.settle(e.exp, p0+1, 0)
+		_, p1 := e.cp.Counts()
+		return fmt.Sprintf("refreshed=%d %s", p1-p0, e2eSnapString(sn))
 	case "e2edrop":
 		rows := parseEvRows(f[1])
 		if len(rows) == 0 {
@@ -468,6 +534,12 @@ func (g *evGen) e2e(idx int) {
 	if idx%4 != 0 {
 		flags = "-"
 	}
+	// a few scenarios contain one step in which the control node holds its answer to system.peers while the cluster
+	// changes again (requests arriving DURING a refresh); each costs four debounce windows
+	hold := idx%3 == 1 && idx%4 != 0
+	if hold {
+		flags = "H"
+	}
 	nextID, nextAddr := 1, 2
 	newMember := func() member {
 		m := member{id: nextID, addr: nextAddr, rpc: nextAddr, dc: 1}
@@ -502,6 +574,10 @@ func (g *evGen) e2e(idx int) {
 		g.dead = true
 	}
 	steps := 4 + r.Intn(3)
+	holdAt := -1
+	if hold {
+		holdAt = r.Intn(steps)
+	}
 	for k := 0; k < steps && !g.dead; k++ {
 		sn := g.w.ev.snap()
 		var known []int
@@ -537,17 +613,14 @@ func (g *evGen) e2e(idx int) {
 			}
 			return b
 		}
-		refreshed := false
-		prior := sn
-		switch x := r.Intn(100); {
-		case x < 30: // status events only
-			b := statusBurst(1 + r.Intn(6))
-			a := g.emit(fmt.Sprintf("e2eevents %s %s", batchStr(b), rowsStr(rows())), "e2e/status-burst", true)
-			refreshed = strings.HasPrefix(a, "refreshed=1")
-		case x < 70: // the topology changes and the cluster tells
-			cls := "e2e/topology"
-			var b []evEvent
-			switch y := r.Intn(100); {
+		// one change of the topology and the events that announce it; quiet = only what can be handled while a refresh
+		// is in progress without racing with it (topology events, UP of an address the driver does not know)
+		topoChange := func(quiet bool) (b []evEvent, cls string) {
+			y := r.Intn(100)
+			if quiet {
+				y = []int{0, 10, 20, 35, 52, 95}[r.Intn(6)]
+			}
+			switch {
 			case y < 30:
 				m := newMember()
 				peers = append(peers, m)
@@ -555,60 +628,95 @@ func (g *evGen) e2e(idx int) {
 				if r.Bool() {
 					b = append(b, evEvent{'u', m.addr})
 				}
-				cls += "/new-node"
+				cls = "/new-node"
 			case y < 50 && len(peers) > 1:
 				i := r.Intn(len(peers))
 				gone := peers[i]
 				peers = append(peers[:i], peers[i+1:]...)
 				b = append(b, evEvent{'t', 0})
-				if r.Bool() {
+				if r.Bool() && !quiet {
 					b = append(b, evEvent{'d', gone.addr})
 				}
-				cls += "/removed-node"
+				cls = "/removed-node"
 			case y < 57 && len(peers) > 0:
 				i := r.Intn(len(peers))
 				peers[i].addr, peers[i].rpc = nextAddr, nextAddr
 				nextAddr++
 				b = append(b, evEvent{'t', 0})
-				cls += "/moved-node"
+				cls = "/moved-node"
 			case y < 61 && len(peers) > 1:
 				i := r.Intn(len(peers))
 				j := (i + 1 + r.Intn(len(peers)-1)) % len(peers)
 				peers[i].addr, peers[j].addr = peers[j].addr, peers[i].addr
 				peers[i].rpc, peers[j].rpc = peers[j].rpc, peers[i].rpc
 				b = append(b, evEvent{'t', 0})
-				cls += "/swapped-addresses"
+				cls = "/swapped-addresses"
 			case y < 65 && len(peers) > 0:
 				i := r.Intn(len(peers))
 				if r.Bool() { // a dead node replaced by a new host id on the same address
 					peers[i].id = nextID
 					nextID++
-					cls += "/replaced-node"
+					cls = "/replaced-node"
 				} else { // a node moves away and a new node appears on the address it left
 					m := newMember()
 					m.addr, m.rpc = peers[i].addr, peers[i].rpc
 					peers[i].addr, peers[i].rpc = nextAddr, nextAddr
 					nextAddr++
 					peers = append([]member{m}, peers...)
-					cls += "/moved-node+new-node-on-the-vacated-address"
+					cls = "/moved-node+new-node-on-the-vacated-address"
 				}
 				b = append(b, evEvent{'t', 0})
 			case y < 80 && len(peers) > 0:
 				i := r.Intn(len(peers))
 				peers[i].defect = []string{"norack", "nodc", "notok", "norpc"}[r.Intn(4)]
 				b = append(b, evEvent{'t', 0})
-				cls += "/invalid-row-" + peers[i].defect
+				cls = "/invalid-row-" + peers[i].defect
 			case y < 88 && len(peers) > 0:
 				i := r.Intn(len(peers))
 				peers[i].defect = ""
 				b = append(b, evEvent{'t', 0})
-				cls += "/row-repaired"
+				cls = "/row-repaired"
 			default:
 				m := newMember()
 				peers = append(peers, m)
 				b = append(b, evEvent{'u', m.addr}) // no NEW_NODE at all: the UP of an unknown address must trigger the refresh
-				cls += "/new-node-seen-by-UP-only"
+				cls = "/new-node-seen-by-UP-only"
 			}
+			return
+		}
+		refreshed := false
+		prior := sn
+		x := r.Intn(100)
+		if k == holdAt {
+			x = 100
+		}
+		switch {
+		case x == 100: // the topology changes twice, the second time while the refresh for the first is waiting for its answer
+			bA, cA := topoChange(false)
+			if r.Intn(3) == 0 {
+				bA = append(bA, statusBurst(1+r.Intn(3))...)
+			}
+			rowsA := rows()
+			bB, cB := topoChange(true)
+			if r.Intn(3) == 0 { // a burst of topology events during the refresh: still one more refresh
+				for i := 5 + r.Intn(40); i > 0; i-- {
+					bB = append(bB, evEvent{'t', 0})
+				}
+				cB += "+burst"
+			}
+			a := g.emit(fmt.Sprintf("e2ehold %s %s %s %s", batchStr(bA), rowsStr(rowsA), batchStr(bB), rowsStr(rows())),
+				"e2e/refresh-held"+cA+"/then-DURING-the-refresh"+cB, true)
+			refreshed = strings.HasPrefix(a, "refreshed=") // also when the second refresh never came: the oracles judge the quiesced view against rowsB
+			if g.w.ev != nil {
+				prior = g.w.ev.holdPrior
+			}
+		case x < 30: // status events only
+			b := statusBurst(1 + r.Intn(6))
+			a := g.emit(fmt.Sprintf("e2eevents %s %s", batchStr(b), rowsStr(rows())), "e2e/status-burst", true)
+			refreshed = strings.HasPrefix(a, "refreshed=1")
+		case x < 70: // the topology changes and the cluster tells
+			b, c := topoChange(false)
+			cls := "e2e/topology" + c
 			if r.Intn(3) == 0 {
 				b = append(b, statusBurst(1+r.Intn(3))...)
 			}
